@@ -3,6 +3,7 @@ package main
 import (
 	"fmt"
 	"os"
+	"strings"
 	"time"
 )
 
@@ -76,6 +77,9 @@ func runC03(cs CaseSpec) *CaseResult {
 	sp := dagSpecFromCase(cs)
 	d := genDag(rng, cs.Seed*7919+int64(cs.Index), sp)
 	if shape := cs.Str("shape", ""); shape != "" {
+		if shape == "long-election" {
+			shape = []string{"long-election", "long-election-1", "long-election-2"}[cs.Index%3]
+		}
 		sp.N = shapeCreators[shape]
 		d = genDagFromShape(rng, cs.Seed*7919+int64(cs.Index), shapeCorpus[shape], sp.N)
 		res.count("dag_from_shape_corpus", 1)
@@ -210,6 +214,31 @@ func runC03(cs CaseSpec) *CaseResult {
 	nAnc := 3
 	if cs.I("coin", 0) == 1 || cs.I("straggler", 0) == 1 {
 		nAnc = 10
+	}
+	if cs.I("coin", 0) == 1 {
+		// targeted: the view of a node that reaches a later witness without knowing
+		// the witnesses that decided an election just before its coin round
+		_, _, free := electionProfileZ(ref)
+		if len(free) == 0 && strings.HasPrefix(cs.Str("shape", ""), "long-election") {
+			// the fixed shape no longer does what it is in the corpus for
+			res.count("dag_shape_without_partial_decision", 1)
+		}
+		if len(free) > 0 {
+			idx := map[string]int{}
+			for i, e := range d.Events {
+				idx[e.Hash] = i
+			}
+			done := map[int]bool{}
+			for _, zh := range free {
+				z, ok := idx[zh]
+				if !ok || done[z] || len(done) >= 12 {
+					continue
+				}
+				done[z] = true
+				res.count("dag_orders_from_a_view_without_the_deciders", 1)
+				vs = append(vs, variant{"order", fmt.Sprintf("ancestry of witness #%d (which does not descend from the witnesses that decided an election before its coin round) first, then the rest, in-memory", z), d.ancestryFirst(z), ExecOpts{Store: "inmem", Cache: big, Batch: 1, ReadValues: true}, false})
+			}
+		}
 	}
 	for k := 0; k < nAnc; k++ {
 		z := len(d.Events)/3 + rng.Intn(len(d.Events)*2/3)
